@@ -382,6 +382,13 @@ def run_tie(name, harness_cmd, timeout=3000, env=None):
     return res
 
 
+def run_ties_parallel(specs, workers=8, timeout=3000):
+    """Run several ties (name, harness_cmd) concurrently; results in the order given."""
+    from concurrent.futures import ThreadPoolExecutor
+    with ThreadPoolExecutor(max_workers=workers) as ex:
+        return list(ex.map(lambda sp: run_tie(sp[0], sp[1], timeout=timeout), specs))
+
+
 def model_eval(lines):
     """Evaluate input lines on the model; returns the list of answers."""
     p = subprocess.run([driver_path(), 'eval'], input='\n'.join(lines) + '\n', stdout=subprocess.PIPE, text=True)
